@@ -497,3 +497,22 @@ package template
 //@     invariant c.state == stateAttr && c.delim == old(c.delim) && len(u) >= 0
 //@     invariant seqeq(c.attr.value, cat(old(c.attr.value), s)) && same(c.attr.name, old(c.attr.name)) && same(c.element, old(c.element)) && same(c.linkRel, old(c.linkRel)) && c.attr.ambiguousValue == old(c.attr.ambiguousValue)
 //@     decreases len(u)
+
+//@ func joinNames(aName, bName string, aNames, bNames []string) (r []string)
+//@   serves C04 C02 C01
+//@   option modifies map[seq]bool#dom map[seq]bool#val
+//@   ensures keepa: forall(k, 0, len(aNames), exists(j, 0, len(r), sameview(at(r, j), at(aNames, k))))
+//@   ensures keepb: forall(k, 0, len(bNames), exists(j, 0, len(r), seq(at(r, j)) == seq(at(bNames, k))))
+//@   ensures heada: aName != bName ==> exists(j, 0, len(r), sameview(at(r, j), aName))
+//@   ensures headb: aName != bName ==> exists(j, 0, len(r), sameview(at(r, j), bName))
+//@   loop 1
+//@     invariant !isnil(aNamesSet)
+//@     invariant len(ret) == ite(aName != bName, 2, 0) + rangeidx
+//@     invariant aName != bName ==> sameview(at(ret, 0), aName) && sameview(at(ret, 1), bName)
+//@     invariant forall(k, 0, rangeidx, sameview(at(ret, ite(aName != bName, 2, 0) + k), at(aNames, k)))
+//@     invariant forallkey(w, haskeym(aNamesSet, w) ==> exists(k, 0, rangeidx, seq(at(aNames, k)) == w))
+//@   loop 2
+//@     invariant len(ret) >= ite(aName != bName, 2, 0) + len(aNames)
+//@     invariant aName != bName ==> sameview(at(ret, 0), aName) && sameview(at(ret, 1), bName)
+//@     invariant forall(k, 0, len(aNames), sameview(at(ret, ite(aName != bName, 2, 0) + k), at(aNames, k)))
+//@     invariant forall(k, 0, rangeidx, exists(j, ite(aName != bName, 2, 0) + len(aNames), len(ret), sameview(at(ret, j), at(bNames, k))) || exists(k2, 0, len(aNames), seq(at(aNames, k2)) == seq(at(bNames, k))))
